@@ -126,7 +126,7 @@ PROPS = {
         assumptions=['PRNG-seed existential not decided (no contract can express it)', 'witness traces accepted by the reference machine: by inspection of contracts/witnesses.md']),
     'C15': dict(
         title='The mutation rate is honoured at its extremes',
-        verus=['mutv'], kani_quick=U8_QUICK + ['u9_rand_scalars_total'], kani_thorough=U8_THOROUGH,
+        verus=['mutv', 'core'], kani_quick=U8_QUICK + ['u9_rand_scalars_total'], kani_thorough=U8_THOROUGH,
         level='proof',
         technique='Kani (CBMC) function-level harnesses on the real mutator methods: rate 0.0 => None / output unchanged, rate 1.0 => Some, for every value and every entropy state of both sources',
         claim='For every built-in mutator method on integers, floats and memo indices: complete proof over the full value domain, every f64 rate and '
@@ -134,7 +134,9 @@ PROPS = {
               'Byte-string (character) and post-emission rewrite (type confusion) methods: same clauses at a stated length bound.',
         note='String/byte-string mutators (StringLength, Character) are verified in Verus for every length, with String operations (chars/take/collect/push/push_str/clone) '
              'as assumed std specs and the rate gate should_mutate as an assumed contract over uninterpreted rate predicates (that contract is what the Kani harnesses prove through '
-             'every integer mutator). First-applicable-wins loop in generator/mutation.rs by inspection. Trusted: Kani/CBMC, ChaCha8 output over-approximated by kani::any().',
+             'every integer mutator). The five dispatchers of generator/mutation.rs (mutate_int/float/memo_index/string/bytes) are verified in unit core against a functional '
+             'specification: the result and the entropy state left behind equal first_*(mutators, 0, value, entropy, rate) = the first registered mutator that fires on the ORIGINAL '
+             'value, each mutator seeing the entropy state its predecessors left (one mutator call = an uninterpreted deterministic function of mutator, value, entropy state, rate). Trusted: Kani/CBMC, ChaCha8 output over-approximated by kani::any().',
         assumptions=['should_mutate(source, 0.0) == false and should_mutate(source, 1.0) == true are assumed in the Verus unit (proved by Kani through the integer mutators)',
                      'String std operations used by the string mutators are assumed specs (listed in trusted_base)']),
     'C16': dict(
